@@ -162,8 +162,15 @@ def check(run):
     each = "EACH(P_self.graph.transforms.children[P_self.graph.base_frame])"
     ups = []
     for st in ast.walk(sa.node):
-        if isinstance(st, ast.Expr) and isinstance(st.value, ast.Call) and ast.unparse(st.value.func) == "self.graph.update":
+        if isinstance(st, ast.Expr) and isinstance(st.value, ast.Call) and isinstance(st.value.func, ast.Attribute) and st.value.func.attr == "update" \
+                and pv.canon(st.value.func.value, st) == "P_self.graph":
             c, args, kw = pv.canon_call(st.value, st)
+            # positional arguments take the names SceneGraph.update gives them
+            upd = ix.cls("trimesh.scene.transforms.SceneGraph").methods.get("update")
+            names = upd.params[1:] if upd is not None else []
+            for i_, a_ in enumerate(args):
+                if i_ < len(names):
+                    kw.setdefault(names[i_], a_)
             ups.append((st, args, kw))
     ok = len(ups) == 1
     if ok:
@@ -492,16 +499,18 @@ def check(run):
         vals = {k: (symbols_array("e", (3,)) if k == "extents" else sp.Symbol(k, positive=True)) for k in sizes}
         prim = Namespace(kind + "Attributes", transform=Cx.copy(), **{k: (v.copy() if isinstance(v, np.ndarray) else v) for k, v in vals.items()})
         me = Namespace(kind, primitive=prim)
-        it = Interp(ix, overrides={("Primitive.apply_transform", "scale"): sc})
+        # the uniform scale is the cube root of the determinant of the linear part: treat the determinant as s**3 with
+        # s > 0, whatever the locals holding it are called and however many steps the root is taken in
+        it = Interp(ix)
+        it.ext_stubs["numpy.linalg.det"] = lambda itp, args, kw: sc ** 3
         it.stubs["trimesh.transformations:is_rigid"] = lambda itp, args, kw: True
 
         def dec(fr, t, _sizes=sizes):
-            txt = ast.unparse(t)
-            if "isinstance(self, kinds)" in txt:
-                return True  # the scaled branch of the four supported kinds
-            for k in ("height", "radius", "extents"):
-                if f"hasattr(prim, '{k}')" in txt:
-                    return k in _sizes
+            if any(isinstance(c_, ast.Call) and ast.unparse(c_.func) == "isinstance" and len(c_.args) == 2 and ast.unparse(c_.args[0]) == "self" for c_ in ast.walk(t)):
+                return True  # the scaled branch of the four supported kinds (`isinstance(self, kinds) and |s - 1| > tol`)
+            if isinstance(t, ast.Call) and ast.unparse(t.func) == "hasattr" and len(t.args) == 2 and isinstance(t.args[1], ast.Constant) \
+                    and t.args[1].value in ("height", "radius", "extents"):
+                return t.args[1].value in _sizes
             return False
 
         it.decider = dec
@@ -513,11 +522,15 @@ def check(run):
             pass
         U = arr(prim.transform)
         pl = symbols_array("p", (3,))
-        scaled_ok = all(sp.simplify(sp.sympify(x_) - sc * sp.sympify(y_)) == 0
+        def zero(e_):
+            # float literals of the source (1.0 / 3.0) become exact rationals: (s**3)**(1/3) is s for s > 0
+            return sp.simplify(sp.powdenest(sp.nsimplify(sp.sympify(e_), rational=True), force=True)) == 0
+
+        scaled_ok = all(zero(sp.sympify(x_) - sc * sp.sympify(y_))
                         for k in sizes for x_, y_ in zip(np.ravel(arr(getattr(prim, k))), np.ravel(arr(vals[k]))))
         new = U.dot(np.append(sc * pl, 1))
         old = Mx.dot(Cx.dot(np.append(pl, 1)))
-        moved_ok = U is not Cx and all(sp.simplify(a_ - b_) == 0 for a_, b_ in zip(new, old))
+        moved_ok = U is not Cx and all(zero(a_ - b_) for a_, b_ in zip(new, old))
         ok = scaled_ok and moved_ok and not skipped
         run.obligation("R10", pa_.where, f"{kind}: size parameters {sizes} scaled by s: {scaled_ok}; T'.(s p) == M.T.p: {moved_ok}"
                                          f"{'; untranslated: ' + str(skipped[:2]) if skipped else ''}", ok)
@@ -563,7 +576,7 @@ def check(run):
         return None
 
     check_surgery(run, ef, ta, T, ta.params[0], c01.hashed_data, c01.rhs_kind, fp_mesh, set(fps) | set(sp_), c01.INVARIANCE,
-                  {k: v for k, v in sp_.items() if k in fps}, c01._translation_only_ok, "C04", r2="R6", r2b="R6", r6="R6", r8="R6",
+                  {k: v for k, v in sp_.items() if k in fps}, (lambda f_, k_, d_, kind_: c01._translation_only_ok(f_, k_, d_, kind_, ix)), "C04", r2="R6", r2b="R6", r6="R6", r8="R6",
                   transport_ok=c01.TRANSPORT)
     P2 = ix.cls("trimesh.path.path.Path2D")
     pfps = {}
